@@ -3,11 +3,16 @@ import Driver.AstJson
 import Driver.SchemaJson
 import GqlModel.Exec
 import GqlModel.Conforms
+import GqlModel.Plan
 /-! Driver for the executor model (C01, C04, C13, C20):
 `{"schema":…, "doc":<astjson>, "opName":"", "vars":{…}, "world":{…}}` →
 `{"class":"requestError|result|fuelOut", "data":…|null, "errPaths":[…], "log":[…], "kfThunk":[…]}`.
 Optional `"checkData": <wire JVal object>` (C04): the response additionally carries `"conforms": bool` = `conformsData`
-(the `Conforms` checker of GqlModel/Conforms.lean) evaluated on THAT data against the request's root selection. -/
+(the `Conforms` checker of GqlModel/Conforms.lean) evaluated on THAT data against the request's root selection.
+Optional `"planModel": true` (C01): the response is that of the IMPLEMENTATION model `GqlModel.Plan` (plan, lazily memoised
+sub-plans, closures forced in the library's order) instead: same shape, plus `"events"` (resolver calls and thunk calls in order),
+`"memoKeys"` (the memo after the first execution) and, with `"reuse": k`, `"misses"` (memo misses of each of k executions of the
+ONE plan) and `"stable"` (all k executions gave the first one's response). -/
 open Lean (Json)
 open GqlModel GqlModel.Exec Driver.SchemaJson
 
@@ -127,6 +132,63 @@ def handle (j : Json) : Except String Json := do
       ("log", Json.arr (log.map encLog).toArray),
       ("kfThunk", Json.arr (kf.map encPath).toArray)] : List (String × Json)) ++ extra)
 
+/-! ## the implementation model (GqlModel/Plan.lean) -/
+
+partial def encPVal : Plan.PVal → Json
+  | .leaf j => encJVal j
+  | .list xs => Json.arr (xs.map encPVal).toArray
+  | .obj fs => Json.mkObj (fs.map (fun (k, v) => (k, encPVal v)))
+  | .deferred _ => Json.mkObj [("$func", Json.bool true)]
+
+def encEvent : Plan.Event → Json
+  | .call e => Json.mkObj [("k", "call"), ("path", encPath e.path), ("parentType", e.parentType), ("field", e.fieldName)]
+  | .force p => Json.mkObj [("k", "force"), ("path", encPath p)]
+
+def encMemoKey (k : Plan.FpId × String) : Json :=
+  Json.arr #[Json.arr (k.1.map (fun (t, r) => Json.arr #[Json.str t, Json.str r])).toArray, Json.str k.2]
+
+def encMResponse (r : Plan.MResponse) : List (String × Json) :=
+  match r with
+  | .requestError what => [("class", "requestError"), ("what", what)]
+  | .fuelOut => [("class", "fuelOut")]
+  | .result data errs events =>
+    [("class", "result"),
+     ("data", match data with | some fs => encPVal (.obj fs) | none => Json.null),
+     ("errPaths", Json.arr (errs.map (fun e => encPath e.1)).toArray),
+     ("errDeferred", Json.arr (errs.map (fun e => Json.bool e.2)).toArray),
+     ("events", Json.arr (events.map encEvent).toArray)]
+
+/-- k executions of one plan, the memo threaded through: (misses per execution, all responses render like the first) -/
+def reuseRuns (p : Plan.Plan) (vars : Coerce.Vars) (w : World) (first : String) : Nat → Plan.Memo → List Nat × Bool
+  | 0, _ => ([], true)
+  | k + 1, memo =>
+    let (r, used) := Plan.executePlanCore p vars w memo defaultFuel
+    let memo' := if p.dynamicDirectives then memo else used
+    let (ms, ok) := reuseRuns p vars w first k memo'
+    ((used.length - (if p.dynamicDirectives then 0 else memo.length)) :: ms, ok && (Json.mkObj (encMResponse r)).compress == first)
+
+def handlePlanModel (j : Json) : Except String Json := do
+  let s ← decSchema (← j.getObjVal? "schema")
+  let doc ← Driver.AstJson.decDocument (← j.getObjVal? "doc")
+  let opName := (Driver.getStr j "opName").toOption.getD ""
+  let vars ← decVars ((j.getObjVal? "vars").toOption.getD (Json.mkObj []))
+  let w ← decWorld (← j.getObjVal? "world")
+  let reuse := (Driver.getNat j "reuse").toOption.getD 1
+  match Plan.planQuery s doc opName with
+  | .error e => return Json.mkObj [("class", "requestError"), ("what", reprStr e)]
+  | .ok p =>
+    let (r, memo) := Plan.executePlanCore p vars w [] defaultFuel
+    let first := (Json.mkObj (encMResponse r)).compress
+    let (misses, stable) := reuseRuns p vars w first (if reuse == 0 then 1 else reuse) []
+    return Json.mkObj (encMResponse r ++ [("memoKeys", Json.arr (memo.map (fun e => encMemoKey e.1)).toArray),
+      ("misses", Json.arr (misses.map (fun n => Json.num (Lean.JsonNumber.fromNat n))).toArray), ("stable", Json.bool stable),
+      ("dynamic", Json.bool p.dynamicDirectives)])
+
+def dispatch (j : Json) : Except String Json :=
+  match j.getObjVal? "planModel" with
+  | .ok (.bool true) => handlePlanModel j
+  | _ => handle j
+
 end Driver.Exec
 
-def main : IO Unit := Driver.run (Driver.wrap Driver.Exec.handle)
+def main : IO Unit := Driver.run (Driver.wrap Driver.Exec.dispatch)
